@@ -54,7 +54,12 @@ fn expected_for<V: Variant>(stream: Stream, len: u64, cache: &Mutex<HashMap<(usi
 pub fn judge_script<V: Variant>(stream: Stream, script: &Script, cache: &Mutex<HashMap<(usize, u64), Expect>>) -> Result<(u64, usize), String> {
     let mut rd = ScriptReader::new(stream, script.clone());
     let res = catch(|| V::hash_stream(&mut rd)).map_err(|p| format!("{} hash_stream_for panicked on script {:?}: {p}", V::NAME, script.to_json().to_string()))?;
+    // Operational reading of the property ("hash exactly the bytes the reader delivered"): whatever the reader
+    // handed out during the run, and the first hard error it actually reported. A helper that polls again after a
+    // 0-byte read and is given more bytes or an error by a non-sticky reader still satisfies the statement; that
+    // is recorded in the message only.
     let delivered = rd.pos;
+    let after_eof = rd.pos - rd.eof_pos.unwrap_or(rd.pos);
     let consumed = rd.consumed;
     if rd.calls_after_eof > 0 {
         // reading again after EOF / after an error is not forbidden by the property; recorded only
@@ -84,8 +89,9 @@ pub fn judge_script<V: Variant>(stream: Stream, script: &Script, cache: &Mutex<H
                 (Ok(h), Ok(b)) if V::to_bytes(h) == *b => Ok((0, consumed)),
                 (Err(GeneratorOrIOError::GeneratorError(e)), Err(x)) if e == x => Ok((1, consumed)),
                 _ => Err(format!(
-                    "{}: reader delivered {delivered} bytes with no hard error ({} interruption(s)); hash_stream = {} but hash_buf of the delivered bytes = {}",
+                    "{}: reader delivered {delivered} bytes before its end of stream with no hard error ({} interruption(s)){}; hash_stream = {} but hash_buf of the delivered bytes = {}",
                     V::NAME, rd.interrupts,
+                    if after_eof > 0 || rd.hard_after_eof.is_some() { format!(" [the helper kept reading after the 0-byte read: {after_eof} more bytes, error {:?}]", rd.hard_after_eof) } else { String::new() },
                     match &res { Ok(h) => format!("Ok({h})"), Err(e) => format!("Err({e:?})") },
                     match &expect { Ok(b) => format!("Ok({})", hex(b)), Err(e) => format!("Err({e:?})") }
                 )),
